@@ -18,9 +18,10 @@ EXTENDS Integers, Sequences, FiniteSets, SequencesExt, TLC, Json
 
 CONSTANTS MAXLEN, FAULTS, FULLSHAPES
 
-VARIABLES sh_dt, sh_nsw, sh_nodes, sh_nvars, nswpat, quad, pred, np, fault, ccs
+VARIABLES sh_dt, sh_nsw, sh_nodes, sh_nvars, nswpat, quad, quadc, pred, np, fault, ccs
+\* quadc: "same" = scalar quad_type; otherwise quad_type is the list <<quad, quadc>> (second entry for all coarser levels)
 
-vars == <<sh_dt, sh_nsw, sh_nodes, sh_nvars, nswpat, quad, pred, np, fault, ccs>>
+vars == <<sh_dt, sh_nsw, sh_nodes, sh_nvars, nswpat, quad, quadc, pred, np, fault, ccs>>
 
 Shapes == 0 .. MAXLEN
 
@@ -28,7 +29,7 @@ Max2(a, b) == IF a >= b THEN a ELSE b
 LenOf(sh) == IF sh = 0 THEN 1 ELSE sh
 
 \* Step.__dict_to_list: as many levels as the longest list; level l (0-based) gets entry min(l, k-1); scalars shared
-NLevels == Max2(Max2(LenOf(sh_dt), LenOf(sh_nsw)), Max2(LenOf(sh_nodes), LenOf(sh_nvars)))
+NLevels == Max2(Max2(Max2(LenOf(sh_dt), LenOf(sh_nsw)), Max2(LenOf(sh_nodes), LenOf(sh_nvars))), IF quadc = "same" THEN 1 ELSE 2)
 EntryTag(sh, l) == IF sh = 0 THEN 0 ELSE (IF l < sh - 1 THEN l ELSE sh - 1) + 1     \* 0 = "the scalar"
 
 \* number of sweeps: pattern over list positions 1..k : "ones" | "last2" (last entry 2) | "first2"
@@ -37,7 +38,8 @@ NswAt(pos, k) == CASE nswpat = "ones" -> 1
                    [] nswpat = "first2" -> IF pos = 1 THEN 2 ELSE 1
 NswOfLevel(l) == IF sh_nsw = 0 THEN (IF nswpat = "ones" THEN 1 ELSE 2) ELSE NswAt(EntryTag(sh_nsw, l), sh_nsw)
 
-RightIsNode == quad \in {"RADAU-RIGHT", "LOBATTO"}
+QuadOfLevel(l) == IF l = 0 \/ quadc = "same" THEN quad ELSE quadc
+RightIsNode == \A l \in 0 .. NLevels - 1 : QuadOfLevel(l) \in {"RADAU-RIGHT", "LOBATTO"}
 
 \* ---- errors, in the order the code meets them --------------------------------
 \* result: <<phase, error class>> ; phase "construct" | "use" | "none"
@@ -89,13 +91,13 @@ DistinctOrders == \A x, y \in Controllers : x # y => x[2] # y[2]
 \* ---- properties of the interpretation itself -------------------------------------
 WellDefined == /\ NLevels \in 1 .. MAXLEN
                /\ Outcome[1] \in {"construct", "use", "none"}
-LongestList == NLevels = Max2(1, Max2(Max2(sh_dt, sh_nsw), Max2(sh_nodes, sh_nvars)))
+LongestList == NLevels = Max2(IF quadc = "same" THEN 1 ELSE 2, Max2(Max2(sh_dt, sh_nsw), Max2(sh_nodes, sh_nvars)))
 LastRepeats == \A l \in 1 .. NLevels : sh_dt > 0 /\ l > sh_dt => Levels[l].dt = sh_dt
 OncePerClass == Cardinality({c[1] : c \in Controllers}) = Cardinality(Controllers)
 Ascending == \A i \in 1 .. Len(ControllerList) - 1 : ControllerList[i][2] < ControllerList[i + 1][2]
 
 Export == PrintT(ToJson([descr |-> TRUE, sh_dt |-> sh_dt, sh_nsw |-> sh_nsw, sh_nodes |-> sh_nodes, sh_nvars |-> sh_nvars,
-                         nswpat |-> nswpat, quad |-> quad, pred |-> pred, np |-> np, fault |-> fault, ccs |-> ccs,
+                         nswpat |-> nswpat, quad |-> quad, quadc |-> quadc, pred |-> pred, np |-> np, fault |-> fault, ccs |-> ccs,
                          nlevels |-> NLevels, outcome |-> Outcome, levels |-> Levels, controllers |-> ControllerList]))
 
 CcChoices == {{}, {<<"A", 999, -1>>}, {<<"B", 999, -1>>}, {<<"A", 999, -1>>, <<"B", 999, 7>>},
@@ -106,6 +108,9 @@ Init ==
     /\ sh_dt \in Shapes /\ sh_nsw \in Shapes /\ sh_nodes \in Shapes /\ sh_nvars \in Shapes
     /\ nswpat \in {"ones", "last2", "first2"}
     /\ quad \in {"RADAU-RIGHT", "GAUSS", "LOBATTO", "RADAU-LEFT"}
+    /\ quadc \in {"same", "RADAU-RIGHT", "GAUSS", "LOBATTO", "RADAU-LEFT"}
+    /\ (quadc # "same" => (fault = "none" /\ ccs = {} /\ nswpat = "ones" /\ pred \in {"none", "pfasst_burnin"}
+                           /\ sh_dt = 0 /\ sh_nsw = 0 /\ sh_nodes = 0 /\ sh_nvars \in {2, 3}))
     /\ pred \in {"none", "fine_only", "pfasst_burnin", "bogus"}
     /\ np \in {1, 2}
     /\ fault \in FAULTS \cup {"none"}
